@@ -178,6 +178,17 @@ Definition default_headers : headers := [("Content-Type", "application/json")].
 
 (* what is on the wire: header names are case-insensitive, httpx lower-cases them *)
 Definition lower (s : string) : string := l2s (map to_lower (s2l s)).
+
+(* _execute_json (after /repo 7378d1f):
+     caller_headers = kwargs.get("headers", {})
+     headers = {}
+     if not any(name.lower() == "content-type" for name in caller_headers):
+         headers["Content-Type"] = "application/json"
+     headers.update(caller_headers) *)
+Definition has_ct (u : headers) : bool :=
+  existsb (fun p => String.eqb (lower (fst p)) "content-type") u.
+Definition merge_headers (u : headers) : headers :=
+  dict_update (if has_ct u then [] else default_headers) u.
 Definition wire_values (name : string) (h : headers) : list string :=
   map snd (filter (fun p => String.eqb (lower (fst p)) (lower name)) h).
 
@@ -220,7 +231,7 @@ Definition build_request (url : string) (c : call) : request :=
         RMultipart url (c_headers c) (c_timeout c)
                    (body_json (c_query c) (c_opname c) vj) (fmap_json fmap) (files_parts files)
       else
-        RJson url (dict_update default_headers (match c_headers c with Some h => h | None => [] end))
+        RJson url (merge_headers (match c_headers c with Some h => h | None => [] end))
               (c_timeout c) (body_json (c_query c) (c_opname c) vj)
   end.
 
@@ -319,9 +330,6 @@ Fixpoint wf_keys (t : vt) : bool :=
   end.
 
 (* ---- finding classes / restrictions as booleans ---- *)
-(* F20: a caller header that is Content-Type up to case but not exactly "Content-Type" *)
-Definition ct_other_case (h : headers) : bool :=
-  existsb (fun p => String.eqb (lower (fst p)) "content-type" && negb (String.eqb (fst p) "Content-Type")) h.
 (* caller headers pairwise distinct up to case (otherwise the caller contradicts himself) *)
 Definition names_distinct_ci (h : headers) : bool := keys_unique (map (fun p => lower (fst p)) h).
 
@@ -499,7 +507,7 @@ Definition run_client (e : sexp) : sexp :=
           L [request_to_sexp (snd (execute (mk_cstate url None) c));
              sB (match v' with Some kv => vars_ok kv && wf_keys (VDict kv) | None => true end);
              sB (match v' with Some kv => existsb (fun q => model_under_dict (snd q)) kv | None => false end);
-             sB (match h' with Some hh => ct_other_case hh | None => false end);
+             sB (match h' with Some hh => has_ct hh | None => false end);
              sB (roundtrip_holds v');
              L (map (fun n => A n) (wire_values "content-type"
                   (match snd (execute (mk_cstate url None) c) with RJson _ hh _ _ => hh | _ => [] end)))]
